@@ -111,6 +111,14 @@ def ev(tree, data, t, subs, shocks, exact: bool):
         return FUNCS2[tree[1]](a, b)
     if k == "subs":
         return ev(subs[tree[1]], data, t, subs, shocks, exact)
+    if k == "forsum":
+        return ev(tree[4], data, t, subs, shocks, exact)
+    if k == "cnum":
+        if exact: raise NotExact()
+        return float.fromhex(tree[2])
+    if k == "fntuple":
+        if exact: raise NotExact()
+        return DOCUMENTED_FUNCTIONS[tree[1]][1](*[float.fromhex(h) for h in tree[3]])
     if k == "fn":
         if exact: raise NotExact()
         args = [ev(a, data, t, subs, shocks, False) for a in tree[2]]
@@ -135,6 +143,8 @@ def ev(tree, data, t, subs, shocks, exact: bool):
             return at(0) / d
         sg = 1 if sh > 0 else -1
         terms = [at(sg * i) for i in range(abs(sh))]
+        if kind == "movsum" and not terms:
+            return Fraction(0) if exact else 0.0          # the empty sum
         if kind == "movsum":
             acc = terms[0]
             for x in terms[1:]: acc = acc + x
@@ -199,6 +209,8 @@ def poly_bound(tree, subs, leaf=(4, 3)):
         if a is None or b is None or tree[1] not in EXACT_F2: return None
         if tree[1] == "avg2": return (a[0] + b[0], max(a[1], b[1]) + 1)
         return (max(a[0], b[0]), max(a[1], b[1]))
+    if k == "forsum":
+        return poly_bound(tree[4], subs, leaf)
     if k == "pf":
         kind, dflt = PF_SPELLINGS[tree[1]]
         sh = dflt if tree[2] is None else tree[2]
@@ -207,13 +219,33 @@ def poly_bound(tree, subs, leaf=(4, 3)):
         n = abs(sh)
         if kind == "shift": return a
         if kind == "diff": return (2 * a[0], a[1])
-        if kind == "movsum": return (n * a[0], a[1]) if n else None
+        if kind == "movsum": return (n * a[0], a[1]) if n else (0, 0)
         if kind == "movprod": return (max(a[0], 1) ** n, a[1] * n) if n else None
         if kind == "movavg":
             if n == 0 or (n & (n - 1)): return None
             return (n * a[0], a[1] + n.bit_length() - 1)
         return None
     return None
+
+
+def float_exact_tree(tree, subs) -> bool:
+    """only operations that IEEE double arithmetic performs identically in irispie's compiled equation and in the plain Python
+    evaluator, in the same order: + - * / unary minus, names, any float constant, shift/diff/mov_sum, piecewise-linear functions"""
+    k = tree[0]
+    if k in ("num", "name", "cnum"): return True
+    if k == "neg": return float_exact_tree(tree[1], subs)
+    if k == "bin": return tree[1] in "+-*/" and float_exact_tree(tree[2], subs) and float_exact_tree(tree[3], subs)
+    if k == "forsum": return float_exact_tree(tree[4], subs)
+    if k == "subs": return float_exact_tree(subs[tree[1]], subs)
+    if k == "fntuple": return tree[1] in ("maximum", "minimum", "avg2", "mix3")
+    if k == "pf": return PF_SPELLINGS[tree[1]][0] in ("shift", "diff", "movsum") and float_exact_tree(tree[3], subs)
+    return False
+
+
+def additive_top(tree) -> bool:
+    """`lhs = a + b` is compiled to `-(lhs)+a+b`, i.e. ((-lhs)+a)+b: the same value as (a+b)-lhs in exact arithmetic but not
+    necessarily bit for bit in doubles; bit-exact comparison is therefore limited to right-hand sides that are a single term"""
+    return (tree[0] == "bin" and tree[1] in "+-") or tree[0] == "forsum"
 
 
 def eqn_is_exact(eqn, subs) -> bool:
@@ -239,6 +271,10 @@ def abs_scale(tree, data, t, subs, shocks):
         return abs_scale(tree[2], data, t, subs, shocks) * abs_scale(tree[3], data, t, subs, shocks)
     if k == "subs":
         return abs_scale(subs[tree[1]], data, t, subs, shocks)
+    if k == "forsum":
+        return abs_scale(tree[4], data, t, subs, shocks)
+    if k == "cnum":
+        return abs(float.fromhex(tree[2]))
     if k == "pf":
         kind, dflt = PF_SPELLINGS[tree[1]]
         sh = dflt if tree[2] is None else tree[2]
@@ -282,6 +318,7 @@ def enc_tree(tree) -> str:
     if k == "f2": return f"g:{tree[1]} {enc_tree(tree[2])} {enc_tree(tree[3])}"
     if k == "pf": return f"p:{tree[1]}:{'_' if tree[2] is None else tree[2]} {enc_tree(tree[3])}"
     if k == "subs": return f"$:{tree[1]}"
+    if k == "forsum": return enc_tree(tree[4])
     raise ValueError(tree)
 
 
@@ -445,19 +482,40 @@ class TreeGen:
         if r.chance(0.45):
             k = None
         elif kind in ("movsum", "movavg", "movprod"):
-            k = r.choice([-4, -2, -3, -1, 2, 3, -5, 4] if kind != "movprod" else [-2, -3, -1, 2, -4])
+            k = r.choice([-4, -2, -3, -1, 2, 3, -5, 4, 1] if kind != "movprod" else [-2, -3, -1, 2, -4, 1])
+            if kind == "movsum" and r.chance(0.12):
+                k = 0                                   # the empty window
         else:
-            k = r.choice([-1, -2, -4, 1, 2, -3, dflt])
+            k = r.choice([-1, -2, -4, 1, 2, -3, dflt, 0, 0, 1, -1])   # boundary values: an explicit 0 is not "no argument"
         if kind == "shift" and arg[0] not in ("name", "tname", "num"):
             self.features.add("shift_pf_nonatomic")
         return ["pf", sp, k, arg]
+
+    def forsum(self, roles, poly):
+        """a distributed-lag sum: sum over k of coef * pf(arg, -k), rendered written out or as `!for ?k = 0, 1, 2 !do + ... !end`"""
+        r = self.rng
+        toks = r.choice([[0, 1, 2], [0, 1], [1, 0, 2], [0, 2, 3], [0], [1, 2], [0, 1, 2, 3], [2, 0]])
+        sign = r.choice(["-", "-", "+"])
+        sp = r.choice(["shift", "shift", "diff", "mov_sum", "movsum"] + ([] if poly else ["roc", "pct", "diff_log"]))
+        pos = PF_SPELLINGS[sp][0] in ("difflog", "pct", "roc")
+        arg = self.flat(roles, pos)
+        pfk = ["pfk", sp, sign, arg]
+        coef = None if r.chance(0.4) else (self.leaf_name(["par"]) if r.chance(0.6) else self.const(True))
+        tmpl = pfk if coef is None else ["bin", "*", coef, pfk]
+        def inst(k):
+            pf = ["pf", sp, (-k if sign == "-" else k), arg]
+            return pf if coef is None else ["bin", "*", coef, pf]
+        exp = inst(toks[0])
+        for k in toks[1:]:
+            exp = ["bin", "+", exp, inst(k)]
+        return ["forsum", [str(k) for k in toks], sign, tmpl, exp]
 
     def tree(self, roles, depth, poly, top=True):
         r = self.rng
         if depth <= 0:
             return self.leaf_name(roles) if r.chance(0.8) else self.const()
         w = [("leaf", 2), ("+", 4), ("-", 3), ("*", 4), ("neg", 1), ("pow", 1), ("f1", 1.5), ("f2", 1), ("pf", 3),
-             ("subs", 1.5 if self.subs_names else 0), ("div", 1.5)]
+             ("subs", 1.5 if self.subs_names else 0), ("div", 1.5), ("forsum", 0.9)]
         c = r.weighted(w)
         T = lambda: self.tree(roles, depth - 1, poly, False)
         if c == "leaf":
@@ -485,6 +543,8 @@ class TreeGen:
             return ["f2", r.choice(["maximum", "minimum", "avg2"]), T(), T()]
         if c == "pf":
             return self.pseudo(roles, poly)
+        if c == "forsum":
+            return self.forsum(roles, poly)
         return ["subs", r.choice(self.subs_names)]
 
 
@@ -634,7 +694,8 @@ class Renderer:
 
     def __init__(self, rng, sm, plain=False):
         self.r, self.sm, self.plain = rng, sm, plain
-        self.ctx = {"vals": {}, "strs": {}, "lists": {}, "flags": {"flag_on": True, "flag_off": False}, "ints": {"nsec": 2}}
+        self.ctx = {"vals": {}, "strs": {}, "lists": {}, "flags": {"flag_on": True, "flag_off": False}, "ints": {"nsec": 2},
+                    "floats": {}, "tuples": {}}
         self.features = set(sm.get("features", []))
         self.used = set()
         self.ctl = None           # inside a !for template: (ctl name e.g. "s" or "(s)")
@@ -766,6 +827,23 @@ class Renderer:
             txt, p = f"{tree[1]}(" + s() + self.expr(tree[2], 0, in_pf) + s() + "," + s() + self.expr(tree[3], 0, in_pf) + s() + ")", 5
         elif k == "pf":
             txt, p = self.pseudo(tree), 5
+        elif k == "forsum":
+            if self.plain or self.ctl is not None or in_pf or self.r.chance(0.35):
+                return self.expr(tree[4], prec, in_pf, right)
+            self.used.add("for-inside-equation")
+            self.ctl = self.r.choice(["k", "(k)", "lag", "(h)"])
+            head = self.for_header(tree[1])
+            body = self.expr(tree[3], 2, False)
+            self.ctl = None
+            return "(" + s() + head + " + " + body + " !end" + s() + ")"
+        elif k == "pfk":
+            txt, p = self.pseudo(["pf", tree[1], 0, tree[3]], ctl_shift=tree[2].replace("+", self.r.choice(["", "+"])) + "?" + self.ctl), 5
+        elif k == "cnum":
+            self.used.add("contextual-float")
+            txt, p = "<" + self.r.choice(["", " "]) + tree[1] + self.r.choice(["", " "]) + ">", 5
+        elif k == "fntuple":
+            self.used.add("contextual-tuple")
+            txt, p = f"{tree[1]}(<{tree[2]}>)", 5
         elif k == "fn":
             txt, p = f"{tree[1]}(" + s() + ("," + s()).join(self.expr(a, 0, in_pf) + s() for a in tree[2]) + ")", 5
         else:
@@ -774,7 +852,7 @@ class Renderer:
             txt = "(" + s() + txt + s() + ")"
         return txt
 
-    def pseudo(self, tree):
+    def pseudo(self, tree, ctl_shift=None):
         sp, k, arg = tree[1], tree[2], tree[3]
         kind, dflt = PF_SPELLINGS[sp]
         self.used.add("pf-" + sp)
@@ -791,6 +869,9 @@ class Renderer:
         a = self.expr(arg, 0, in_pf=True)
         assert paren_depth(a) <= 1, a
         shift = k
+        if ctl_shift is not None:
+            self.used.add("pf-shift-from-control")
+            return f"{name}({a},{self.r.choice(['', ' '])}{ctl_shift})"
         if shift is None and self.ch(0.3):
             shift = dflt                                   # the default written out
         elif shift == dflt and self.ch(0.5):
@@ -799,7 +880,21 @@ class Renderer:
             self.used.add("pf-default-shift")
             return f"{name}({a})"
         st = self.r.choice(["%d" % shift, "%+d" % shift, " %d " % shift, " %+d" % shift]) if not self.plain else "%d" % shift
-        self.used.add("pf-explicit-shift")
+        if shift == 0 and not self.plain:
+            st = self.r.choice(["0", "-0", "+0", " 0 "])
+        if self.ch(0.2):
+            # the shift / window taken from the preparser context: `-<h>` with h >= 0, or `<h>`
+            key = f"h{len(self.ctx['ints'])}"
+            if shift <= 0 and self.r.chance(0.7):
+                self.ctx["ints"][key] = -shift; st = "-<" + key + ">"
+            else:
+                self.ctx["ints"][key] = shift; st = "<" + key + ">"
+            if self.r.chance(0.3):
+                st = st.replace("<", "{{ ").replace(">", " }}"); self.used.add("jinja")
+            else:
+                self.used.add("contextual-<>")
+            self.used.add("pf-shift-from-context")
+        self.used.add("pf-explicit-shift" + ("-zero" if shift == 0 else ""))
         return f"{name}({a},{st})"
 
     # ---- equations --------------------------------------------------------------------------
@@ -1021,4 +1116,10 @@ def build_context(spec):
     ctx.update({k: list(v) for k, v in spec["lists"].items()})
     ctx.update(spec["flags"])
     ctx.update(spec["ints"])
+    if spec.get("numpy_scalars"):
+        import numpy as _np
+        ctx.update({k: _np.float64(float.fromhex(v)) for k, v in spec.get("floats", {}).items()})
+    else:
+        ctx.update({k: float.fromhex(v) for k, v in spec.get("floats", {}).items()})
+    ctx.update({k: (tuple if hash(k) % 2 else list)(float.fromhex(h) for h in v) for k, v in spec.get("tuples", {}).items()})
     return ctx
